@@ -393,17 +393,34 @@ class ImportURI(scoping.ModelLoader):
 
         # 2) do we have loaded models?
         for m in model_repository.local_models:
-            ret = self.scope_provider(m, attr, obj_ref)
+            ret = self._lookup_in_other_model(m, obj, attr, obj_ref)
             if ret:
                 return ret
 
         # 3) Use builtin models as a fallback if provided
         if model._tx_metamodel.builtin_models:
             for m in model._tx_metamodel.builtin_models:
-                ret = self.scope_provider(m, attr, obj_ref)
+                ret = self._lookup_in_other_model(m, obj, attr, obj_ref)
                 if ret:
                     return ret
         return None
+
+    def _lookup_in_other_model(self, other_model, obj, attr, obj_ref):
+        """
+        Search `other_model`. The underlying scope provider locates its errors
+        (e.g. name is not unique) with the parser and file name of the object
+        it is given, which here is the searched model: the position of the
+        reference belongs to the referencing model, so re-locate the error.
+        """
+        from textx.model import get_model
+        from textx.scoping.tools import get_parser
+
+        try:
+            return self.scope_provider(other_model, attr, obj_ref)
+        except TextXSemanticError as e:
+            e.line, e.col = get_parser(obj).pos_to_linecol(obj_ref.position)
+            e.filename = get_model(obj)._tx_filename
+            raise
 
 
 def follow_loaded_models_scope_redirection_logic(obj, scope_redirection_logic):
